@@ -315,6 +315,9 @@ class SessionModel:
             c = site.child(key)
             if site.src is MISSING:
                 self._bad = True
+            if e.get("access_only"):
+                # the sub-snapshot is fetched but nothing is compared with it: the key counts as accessed
+                return True
             ck = e.get("cop", "eq")
             return self._observe(c, ck, x)
         return self._observe(site, kind, x)
